@@ -10,11 +10,17 @@ MANIFEST = dict(
          "the proved delay-queue LTS, InotifyEmitter.queue_events) run in lock-step against the real observer on the real "
          "kernel for every generated history. Theorems (coq/Props/C01.v): the replay function is the pointwise tree semantics "
          "(C01_replay_semantics); every covered operation's delivered events turn the replayed tree into the tree after it "
-         "(C01_contract_replay, C01_replay_step); induction over histories of any length of paced covered operations, from "
-         "construct() and on the Pipeline model through delay queue and grouping (C01_sequential_partial, "
-         "C01_pipeline_from_start_partial). Not theorems (stated as C01_replay_full / C01_sequential_full, carried by the "
-         "lock-step correspondence + the replay oracle against os.walk): bursts and read cuts at arbitrary points, directory "
-         "move-in/out and directory-over-directory replay.",
+         "(C01_contract_replay, C01_replay_step); on the REPAIRED reader (F10 family fixed) also a directory moved out of the "
+         "tree (C01_replay_step_out) and the operation after it, whose first record settles the pending candidate "
+         "(C01_replay_step_x); induction over histories of any length of paced covered operations INCLUDING directory move-outs "
+         "followed by any covered operation (re-creating the old name, renaming a former ancestor - the F10b/F10c histories), from "
+         "construct() and on the Pipeline model through delay queue and grouping (C01_sequential_partial, C01_from_start_partial, "
+         "C01_sequential_pipeline_partial, C01_pipeline_from_start_partial); F10d (directory comes back) is replayed by "
+         "vm_compute on the repaired model and refuted on the pinned one (C01_f10_repaired, C01_f10d_pinned_refuted). Extra "
+         "hypotheses of the move-out theorems: full event mask; the operation right after a move-out acts in a directory of "
+         "the tree and not inside the departed directory. Not theorems (stated as C01_replay_full / C01_sequential_full, carried "
+         "by the lock-step correspondence + the replay oracle against os.walk): bursts and read cuts at arbitrary points, "
+         "directory move-in and directory-over-directory replay, two directory move-outs back to back.",
     note="Trusted: Coq kernel; the kernel model is validated, not proved; reader/emitter steps are atomic w.r.t. file-system "
          "operations (gates at poll() and read_event()). See coq/Props/C01.v for exactly which part of the replay law is a "
          "theorem and which is carried by the sampled correspondence.",
